@@ -225,6 +225,8 @@ impl<B> Call<WithoutBody, B> {
         assert!(!self.analyzed);
 
         self.state.skip_method_body_check = true;
+        // Unless the user sets a content-length, the body is sent chunked.
+        self.state.writer = BodyWriter::new_chunked();
 
         Call {
             request: self.request,
